@@ -86,3 +86,63 @@ Example narrowing_example :
   optimize (EBin 0 OAnd (EBin 0 OPrefixMatch (EField 0 KeyKW) (EStr 0 "ab"))
                         (EBin 0 OEq (EField 0 ValueKW) (EStr 0 "x"))) = RPrefix "ab".
 Proof. reflexivity. Qed.
+
+(* ------------------------------------------------------------------ the composed SELECT
+   (Proofs/ScanSlotsProofs.v).  [reads_within_region] above is about the scan node (and a
+   LimitPlan over it).  A SELECT puts a projection or an aggregate node on the scan node, then
+   possibly an order node and a limit node (Model/ScanIO.v fplan: the twins of their Init /
+   Next / Batch / prepare loops as programs over the storage instructions). *)
+From KV Require Import Model.Value Model.SelectPlans Model.Pipeline Model.PipelineS Model.PipelineIO
+                       Proofs.ScanSlotsProofs.
+From KV Require Import Model.ScanIO Model.Storage.
+Local Open Scope list_scope.
+
+
+(* none of these nodes issues a storage call of its own: for every final plan, every oracle,
+   both modes, every batch size >= 1 and every strictly sorted store, the calls of BuildPlan +
+   drain are calls the scan node may issue, inside its region *)
+Theorem select_calls_are_scan_calls :
+  forall (flt : kvp -> bool) (gkey : kvp -> bytes) (B fuel : nat) (m : mode) (fp : fplan)
+         (d : store) (l0 : list scall),
+  1 <= B -> ssorted d -> keys_ok (fchild fp) -> List.length d + fplan_keys fp < fuel ->
+  exists sizes l, ScanIO.run_stmt true flt gkey B fuel m (StSelect fp) (SState d l0 None)
+                  = (Storage.Ok sizes, SState d (l0 ++ l)%list None)
+                  /\ reads_ok (fleaf fp) l.
+Proof. exact select_calls_are_scan_calls_lemma. Qed.
+Print Assumptions select_calls_are_scan_calls.
+
+(* for every accepted SELECT text ([plan_stmt_text q = STOk pl], Model/PipelineS.v) the statement
+   ScanIO runs is [text_fplan pl] (Model/PipelineIO.v: the shape buildFinalPlan built over the scan
+   node of the region inferred from the FOLDED WHERE tree, [text_region pl]); its run reads
+   nothing for REmpty, only the listed keys (Get) for RMget, and otherwise only through the
+   cursor, the keys returned lying in the region except at most the last one, which ends the scan *)
+Theorem reads_within_region_text :
+  forall (fo : fops) (re : bytes -> bytes -> Value.res bool) (fmt_v : F fo -> string)
+         (flt : kvp -> bool) (gkey : kvp -> bytes) (B fuel : nat) (m : mode)
+         (q : string) (pl : splanned fo) (d : store) (l0 : list scall),
+  plan_stmt_text fo re fmt_v q = STOk pl ->
+  1 <= B -> ssorted d -> List.length d + plan_keys (PScan (sp_scan fo pl)) < fuel ->
+  text_stmt fo re fmt_v q = Some (StSelect (text_fplan fo pl)) /\
+  exists sizes l, ScanIO.run_stmt true flt gkey B fuel m (StSelect (text_fplan fo pl)) (SState d l0 None)
+                  = (Storage.Ok sizes, SState d (l0 ++ l)%list None)
+                  /\ reads_ok (sp_scan fo pl) l
+                  /\ reads_in_region (text_region fo re fmt_v pl) l.
+Proof. exact reads_within_region_text_lemma. Qed.
+Print Assumptions reads_within_region_text.
+
+(* non-vacuity: ORDER BY + LIMIT over a projection with a prefix filter; the scan is read once,
+   up to the first key beyond the prefix, whatever the nodes above do *)
+Example reads_within_region_text_nonvacuous :
+  forall (fo : fops) (re : bytes -> bytes -> Value.res bool) (fmt_v : F fo -> string),
+  let q := "select key, value where key ^= 'a' & value != 'x' order by value desc limit 1, 1" in
+  let d := [("a","1");("ab","2");("abc","3");("b","4");("c","5")] in
+  exists pl, plan_stmt_text fo re fmt_v q = STOk pl /\
+    text_region fo re fmt_v pl = RPrefix "a" /\
+    (exists os, text_fplan fo pl = FLimit 1 1 (FOrder (FProj (PScan (SPrefix "a")))) /\ sp_shape fo pl = SLimit 1 1 (SOrder os SProj)) /\
+    ScanIO.run_stmt true (fun _ => true) snd 2 20 RowMode (StSelect (text_fplan fo pl)) (sinit d None)
+    = (Storage.Ok [1], SState d [CCursor; CSeek "a"; CCursor; CSeek "a"; CNext (Some "a"); CNext (Some "ab");
+                                 CNext (Some "abc"); CNext (Some "b")] None).
+Proof.
+  intros. eexists. split; [vm_compute; reflexivity|]. split; [vm_compute; reflexivity|].
+  split; [eexists; split; vm_compute; reflexivity|]. vm_compute. reflexivity.
+Qed.
